@@ -35,6 +35,12 @@ func (e *env) client(r *reqT) (client.Client, error) {
 		cfg.Username, cfg.Password = user1, "Correct horse"
 	case "wronguser":
 		cfg.Username, cfg.Password = "mallory", pass1
+	case "unknownempty":
+		cfg.Username, cfg.Password = "mallory", ""
+	case "emptypass":
+		cfg.Username, cfg.Password = user1, ""
+	case "swapped":
+		cfg.Username, cfg.Password = user1, pass2
 	}
 	c, err := client.NewDefaultClient(cfg)
 	if err != nil {
@@ -52,20 +58,33 @@ func (e *env) typedOpts(o map[string]string) api.PinOptions {
 	if o["mode"] == "direct" {
 		po.Mode = api.PinModeDirect
 	}
-	num := map[string]int{"absent": 0, "two": 2, "three": 3, "neg": -1, "one": 1}
+	num := map[string]int{"absent": 0, "zero": 0, "two": 2, "three": 3, "neg": -1, "negtwo": -2, "one": 1}
 	po.ReplicationFactorMin = num[o["rmin"]]
 	po.ReplicationFactorMax = num[o["rmax"]]
-	if o["shard"] == "k1024" {
+	switch o["shard"] {
+	case "k1024":
 		po.ShardSize = 1024
+	case "big":
+		po.ShardSize = 9223372036854775813
 	}
+	p1, p2, p4 := e.names.Peer("p1"), e.names.Peer("p2"), e.names.Peer("p4")
 	switch o["ualloc"] {
 	case "one":
-		po.UserAllocations = []peer.ID{e.names.Peer("p1")}
+		po.UserAllocations = []peer.ID{p1}
 	case "two":
-		po.UserAllocations = []peer.ID{e.names.Peer("p1"), e.names.Peer("p2")}
+		po.UserAllocations = []peer.ID{p1, p2}
+	case "qm":
+		po.UserAllocations = []peer.ID{p4}
+	case "dup":
+		po.UserAllocations = []peer.ID{p1, p1}
 	}
-	if o["expire"] == "at" {
+	switch o["expire"] {
+	case "at":
 		po.ExpireAt = t1
+	case "atfrac":
+		po.ExpireAt = t2
+	case "atpast":
+		po.ExpireAt = t0past
 	}
 	if m, ok := e.metaVal[o["meta"]]; ok {
 		po.Metadata = map[string]string{}
@@ -73,14 +92,19 @@ func (e *env) typedOpts(o map[string]string) api.PinOptions {
 			po.Metadata[k] = v
 		}
 	}
-	if o["update"] == "v0" {
+	switch o["update"] {
+	case "v0":
 		po.PinUpdate = e.names.Cid("c9")
+	case "v1":
+		po.PinUpdate = e.names.Cid("c8")
 	}
 	switch o["origins"] {
 	case "one":
 		po.Origins = []ma.Multiaddr{e.origins["o1"]}
 	case "two":
 		po.Origins = []ma.Multiaddr{e.origins["o1"], e.origins["o2"]}
+	case "onlyp2p":
+		po.Origins = []ma.Multiaddr{e.origins["o3"]}
 	}
 	return po
 }
@@ -187,7 +211,11 @@ func (e *env) runClient(r *reqT, raw json.RawMessage) (*recT, error) {
 	case "PeerAdd":
 		ret, cerr = c.PeerAdd(ctx, e.names.Peer("p3"))
 	case "PeerRemove":
-		cerr = c.PeerRm(ctx, e.names.Peer("p3"))
+		rm := e.names.Peer("p3")
+		if r.Peer == "qm" {
+			rm = e.names.Peer("p4")
+		}
+		cerr = c.PeerRm(ctx, rm)
 		noret = true
 	case "Allocations":
 		f := api.AllType
@@ -196,6 +224,8 @@ func (e *env) runClient(r *reqT, raw json.RawMessage) (*recT, error) {
 			f = api.DataType
 		case "multi":
 			f = api.DataType | api.MetaType
+		case "composite":
+			f = api.AllType
 		}
 		ret, cerr = c.Allocations(ctx, f)
 	case "Allocation":
@@ -207,6 +237,8 @@ func (e *env) runClient(r *reqT, raw json.RawMessage) (*recT, error) {
 			f = api.TrackerStatusPinned
 		case "multi":
 			f = api.TrackerStatusPinned | api.TrackerStatusPinError
+		case "composite":
+			f = api.TrackerStatusError
 		}
 		ret, cerr = c.StatusAll(ctx, f, local)
 	case "Recover":
